@@ -190,6 +190,12 @@ class Facts:
         return path.replace(self.repo + '/', '')
 
     def all_bases(self, name):
+        c = self.__dict__.setdefault('_ab', {})
+        if name not in c:
+            c[name] = self._all_bases(name)
+        return c[name]
+
+    def _all_bases(self, name):
         out = []
         seen = set()
         todo = [name]
@@ -206,7 +212,10 @@ class Facts:
         return out
 
     def derived_from(self, base):
-        return sorted(n for n in self.records if base in self.all_bases(n))
+        c = self.__dict__.setdefault('_df', {})
+        if base not in c:
+            c[base] = sorted(n for n in self.records if base in self.all_bases(n))
+        return c[base]
 
     def field(self, cls, name):
         """look a field up in cls or its bases; returns (owner, field)"""
